@@ -70,7 +70,7 @@ func t3Body(s HarnessSpec) (func(x *gosym.Exec), error) {
 	case "structopts":
 		return gosym.T3StructFieldOptions(p), nil
 	case "structsyntax":
-		return gosym.T3StructSyntax(p), nil
+		return gosym.T3StructSyntax(p, s.T3Native), nil
 	case "mapkey":
 		return gosym.T3MapKeyRange(p, "map_key_u32", s.T3Bits, s.T3Native), nil
 	case "array":
